@@ -111,6 +111,8 @@ fn main() {
         "C10" => props::c10::run(&ctx, &mut model, &mut rep),
         "C11" => props::c11::run(&ctx, &mut model, &mut rep),
         "C12" => props::c12::run(&ctx, &mut model, &mut rep),
+        "C13" => props::c13::run(&ctx, &mut model, &mut rep),
+        "C14" => props::c14::run(&ctx, &mut model, &mut rep),
         "C15" => props::c15::run(&ctx, &mut model, &mut rep),
         "C16" => props::c16::run(&ctx, &mut model, &mut rep),
         "C17" => props::c17::run(&ctx, &mut model, &mut rep),
